@@ -647,33 +647,33 @@ func fileExists(p string) bool {
 
 func writeEvidence(p *prop, tier string, base int64, m *merged, start time.Time, seeds []int64, inconclusive []string, violations []violation, knownLines []string) {
 	cov := map[string]any{
-		"evaluations":             m.Evaluations,
-		"distinct_nontrivial":     len(m.hashes),
-		"nontrivial_total":        m.Nontrivial,
-		"rule":                    firstNonEmpty(m.Rule, p.Rule),
-		"samples":                 m.Samples,
-		"class_histogram":         m.Classes,
-		"known_finding_hits":      m.Known,
-		"excluded_by_domain":      m.Excluded,
-		"counters":                m.Counters,
-		"shard_seeds":             seeds,
-		"notes":                   m.Notes,
-		"inconclusive":            inconclusive,
-		"known_finding_lines":     knownLines,
-		"builds":                  p.buildNames(),
-		"go_toolchain":            "go1.23.5 (GOTOOLCHAIN=local)",
-		"deciding_technique":      p.Technique,
-		"exhaustive":              false,
-		"violations_detail":       violationsDetail(violations),
-		"generated_by":            "cmd/verifrun from per-shard statistics written by checks/" + p.Pkg,
-		"shards":                  len(seeds),
-		"rapid_checks_per_shard":  map[string]int{"quick": p.Quick.Checks, "thorough": p.Thorough.Checks}[tier],
-		"native_fuzz_target":      fuzzName(p, tier),
-		"repo_head":               repoHead(),
-		"repo_dirty":              repoDirty(),
-		"verif_seed_env":          os.Getenv("VERIF_SEED"),
-		"timeout_s_per_shard":     map[string]int{"quick": p.Quick.TimeoutS, "thorough": p.Thorough.TimeoutS}[tier],
-		"samples_are":             "non-trivial cases as executed (JSON form of the check's case type)",
+		"evaluations":              m.Evaluations,
+		"distinct_nontrivial":      len(m.hashes),
+		"nontrivial_total":         m.Nontrivial,
+		"rule":                     firstNonEmpty(m.Rule, p.Rule),
+		"samples":                  m.Samples,
+		"class_histogram":          m.Classes,
+		"known_finding_hits":       m.Known,
+		"excluded_by_domain":       m.Excluded,
+		"counters":                 m.Counters,
+		"shard_seeds":              seeds,
+		"notes":                    m.Notes,
+		"inconclusive":             inconclusive,
+		"known_finding_lines":      knownLines,
+		"builds":                   p.buildNames(),
+		"go_toolchain":             "go1.23.5 (GOTOOLCHAIN=local)",
+		"deciding_technique":       p.Technique,
+		"exhaustive":               false,
+		"violations_detail":        violationsDetail(violations),
+		"generated_by":             "cmd/verifrun from per-shard statistics written by checks/" + p.Pkg,
+		"shards":                   len(seeds),
+		"rapid_checks_per_shard":   map[string]int{"quick": p.Quick.Checks, "thorough": p.Thorough.Checks}[tier],
+		"native_fuzz_target":       fuzzName(p, tier),
+		"repo_head":                repoHead(),
+		"repo_dirty":               repoDirty(),
+		"verif_seed_env":           os.Getenv("VERIF_SEED"),
+		"timeout_s_per_shard":      map[string]int{"quick": p.Quick.TimeoutS, "thorough": p.Thorough.TimeoutS}[tier],
+		"samples_are":              "non-trivial cases as executed (JSON form of the check's case type)",
 		"distinct_counting_method": "FNV-64a hash of the JSON form of each non-trivial case; union over shards",
 	}
 	if m.Samples == nil {
